@@ -145,6 +145,13 @@ def run_extract():
     return rc == 0, msg
 
 
+def leanchecker(module, timeout=1800):
+    """lake env leanchecker <Module>: the toolchain's independent re-checker of the compiled .olean"""
+    with Lock("lean"):
+        rc, so, se, dt = run(["lake", "env", "leanchecker", module], cwd=LEAN, timeout=timeout)
+    return rc == 0, (so + se).decode(errors="replace"), dt
+
+
 def lake_build(targets, timeout=3000):
     with Lock("lean"):
         rc, so, se, dt = run(["lake", "build"] + targets, cwd=LEAN, timeout=timeout)
